@@ -41,8 +41,20 @@ VALUE = {"empty": "", "unknown_type": "nosuchtype", "deny": "deny", "huge": 9999
          "self_ref": "lb", "nul": "a\u0000b"}
 
 
+LOGSCRIPT = {"valid": "`src=${request.source} dst=${request.target} l=${request.listener}`",
+             "evalfail_always": 'split(request.listener, "-")[1]',
+             "const_div0": "`x=${to_string(1000 / 0)}`",
+             "traffic_dependent_div": "`q=${to_string(100 / (request.target.port - 80))}`",
+             "traffic_dependent_index": 'split("a.b", ".")[request.target.port / 200]',
+             "nonstring": "request.target.port",
+             "syntax": "`${request.listener"}
+
+
 def mutate(doc, path, op, param):
     d = copy.deepcopy(doc)
+    if op == "logscript":
+        d["accessLog"]["format"] = {"script": LOGSCRIPT[param]}
+        return d
     keys = path.split(".")
     cur = d
     for k in keys[:-1]:
@@ -97,7 +109,7 @@ def probe_running(wd, name, doc, ports):
     res = "ok"
     why = ""
     try:
-        for port, data in ((ports[1], b"CONNECT 127.0.0.1:9 HTTP/1.1\r\n\r\n"), (ports[3], b"\x05\x01\x02\x01\x01a\x01a\x05\x01\x00\x01\x7f\x00\x00\x01\x00\x09")):
+        for port, data in ((ports[1], b"CONNECT 127.0.0.1:9 HTTP/1.1\r\n\r\n"), (ports[1], b"CONNECT localhost:80 HTTP/1.1\r\n\r\n"), (ports[1], b"CONNECT localhost:443 HTTP/1.1\r\n\r\n"), (ports[3], b"\x05\x01\x02\x01\x01a\x01a\x05\x01\x00\x01\x7f\x00\x00\x01\x00\x09")):
             try:
                 s = socket.create_connection(("127.0.0.1", port), timeout=3)
             except OSError:
@@ -113,6 +125,8 @@ def probe_running(wd, name, doc, ports):
             except OSError:
                 pass
             s.close()
+        # finished connections are handed to the access log by the once-a-second sweep
+        time.sleep(2.2)
         if not p.alive():
             res, why = "died", str(p.panicked())[:200]
         else:
@@ -219,7 +233,11 @@ def run(tier, t0):
         if st in ("crash", "hang"):
             v.report("config/process-%s/%s/%s/%s" % (st, r["path"], r["op"], r["param"]), {"output": msg}, {"cmd": "rp --test -c <mutant>", "yaml": json.dumps(d)})
     nrun = 0
-    for r, d in rnd.sample(accepted_rows, min(len(accepted_rows), 60 if thorough else 12)):
+    logrows = [(r, d) for r, d in accepted_rows if r["op"] == "logscript"]
+    others = [(r, d) for r, d in accepted_rows if r["op"] != "logscript"]
+    if not any(r["param"] == "valid" for r, _ in logrows):
+        raise vlib.ToolError("the valid access-log script is not accepted")
+    for r, d in logrows + rnd.sample(others, min(len(others), 60 if thorough else 10)):
         st, why = probe_running(wd, "acc%d" % nrun, d, ports)
         nrun += 1
         if st not in ("ok", "did-not-start"):
